@@ -17,7 +17,7 @@ RULE = (
 
 
 def profile(tier):
-    return strategies.profile(shape="history_get", max_faults=0, timeouts=[10, 10, 0.5, None, 1e-3], max_ops=9, cbget=True)
+    return strategies.profile(shape="history_get", timeouts=[10, 10, 0.5, None, 1e-3], max_ops=9, cbget=True, idle_death=True, max_faults=1)
 
 
 def sweep_profile(tier):
@@ -52,6 +52,7 @@ def oracle(H):
     if _is_race(H):
         v += oracles.c09_work(H)
     v += oracles.liveness(H)       # incl. the probe task submitted on the returned instance: it must complete
+    v += oracles.c09_probe(H)
     return v
 
 
